@@ -210,10 +210,17 @@ def emit_cdbz(kb, hdr, thr, ls, lt, lf, rs, rt, rf):
         return b
 
     r = base_rules()
-    r.add("R9.using_decltype", r"\busing Result = decltype\(t_lhs / t_rhs\);", "typedef __typeof__(t_lhs / t_rhs) Result;",
-          min_fire=0 if (lf or rf) else 1)
+    # the type alias in which the overflow test is made: decltype of the division (the promoted type), or
+    # std::common_type_t (same type -> that type, otherwise the usual arithmetic conversions, as in C)
+    r.add("R9.using_decltype", r"\busing Result = decltype\(t_lhs / t_rhs\);", "typedef __typeof__(t_lhs / t_rhs) Result;")
+    ct = lt if lt == rt else "__typeof__((%s)0 + (%s)0)" % (lt, rt)
+    r.add("R9.using_common", r"\busing Result = std::common_type_t<\s*LHS\s*,\s*RHS\s*>;", "typedef %s Result; /* std::common_type_t<LHS, RHS> */" % ct)
     r.add("R6.limits_min", r"\bstd::numeric_limits<Result>::min\(\)", "((Result)MIN_OF((Result)0))")
+    before = dict(kb.rules_fired)
     kb.emit_function("static inline void %s(const %s t_lhs, const %s t_rhs)" % (name, lt, rt), cd, r, [], {}, name, pre=pre)
+    fired = sum(kb.rules_fired.get(k, 0) - before.get(k, 0) for k in ("R9.using_decltype", "R9.using_common"))
+    if not (lf or rf) and fired != 1:
+        raise ExtractionBreak("check_divide_by_zero: the alias `using Result = ...` is not in the rule set")
     if not (lf or rf):
         kb.add("_Static_assert(SIGNED_INT((%s)0 / (%s)1) == %d, \"common type signedness table\");" % (lt, rt, 1 if sg else 0))
 
